@@ -1,5 +1,7 @@
 package csproto
 
+import "google.golang.org/protobuf/proto"
+
 // Spec helpers that mention csproto's own types.
 
 func decOK(d *Decoder) bool { return d.offset >= 0 && d.offset <= len(d.p) }
@@ -24,3 +26,25 @@ func keyBefore(p []byte, o int, num int, wt WireType) bool {
 }
 
 func lemma_key_before(p []byte, o int, num int, wt WireType) {}
+
+// isSizable / canMarshal / canUnmarshal: the dispatch conditions of Size, Marshal, Unmarshal.
+func isSizable(m interface{}) bool {
+	_, a := m.(Sizer)
+	_, b := m.(ProtoV1Sizer)
+	_, c := m.(proto.Message)
+	return a || b || c
+}
+
+func canMarshal(m interface{}) bool {
+	_, a := m.(Marshaler)
+	_, b := m.(ProtoV1Marshaler)
+	_, c := m.(proto.Message)
+	return a || b || c
+}
+
+func canUnmarshal(m interface{}) bool {
+	_, a := m.(Unmarshaler)
+	_, b := m.(ProtoV1Unmarshaler)
+	_, c := m.(proto.Message)
+	return a || b || c
+}
